@@ -405,7 +405,9 @@ class kFlowDecomp(pathmodel.AbstractPathModelDAG):
                     constraint_length = sum(self.G[u][v].get(self.length_attr, 1) for (u,v) in subpath)
                     coverage_fraction = self.subpath_constraints_coverage_length
                 # If the subpath is not covered enough by the greedy decomposition, we return False
-                if gu.max_occurrence(subpath, paths, edge_lengths={(u,v): self.G[u][v].get(self.length_attr, 1) for (u,v) in subpath}) < constraint_length * coverage_fraction:
+                # (the occurrences are counted in edges, unless the coverage is required in terms of lengths)
+                edge_lengths = {} if self.subpath_constraints_coverage_length is None else {(u,v): self.G[u][v].get(self.length_attr, 1) for (u,v) in subpath}
+                if gu.max_occurrence(subpath, paths, edge_lengths=edge_lengths) < constraint_length * coverage_fraction:
                     return False
         
         if len(paths) <= self.k:
